@@ -1,7 +1,7 @@
 (* C06 — Drop policies discard exactly what they name, never block, and account for it.
    Statements only; proofs in ChannelProofs.v, WorldQueue.v. *)
 From Coq Require Import Permutation.
-From RS Require Import Base Channel ChannelProofs Pipeline Script World Hist WorldProofs WorldInv WorldQueue.
+From RS Require Import Base Channel ChannelProofs ChannelBursts Pipeline Script World Hist WorldProofs WorldInv WorldQueue.
 
 Section C06.
 Context {State : Type}.
@@ -29,6 +29,23 @@ Theorem C06_drop_latest_one : forall (c : chan aid) x, pol c = DropLatest -> bou
                   (ok = false <-> length (q c) = cap c).
 Proof. exact drop_latest_one. Qed.
 
+(* "after a burst of n > capacity actions exactly the newest (resp. oldest) `capacity` of them
+   remain, in dispatch order": bursts of any length with no consumer running (ChannelBursts.v) *)
+Theorem C06_burst_drop_oldest : forall (l : list (item aid)) (c : chan aid),
+  pol c = DropOldest -> 0 < cap c -> bounded c ->
+  q (fst (send_all c l)) = lastn (cap c) (q c ++ l) /\ cap (fst (send_all c l)) = cap c.
+Proof. exact drop_oldest_burst. Qed.
+
+Theorem C06_burst_drop_latest : forall (l : list (item aid)) (c : chan aid),
+  pol c = DropLatest -> bounded c ->
+  q (fst (send_all c l)) = firstn (cap c) (q c ++ l) /\ cap (fst (send_all c l)) = cap c.
+Proof. exact drop_latest_burst. Qed.
+
+Example C06_burst_example :
+  q (fst (send_all (chan_new 2 DropOldest) [IAct 1%N; IAct 2%N; IAct 3%N; IAct 4%N; IAct 5%N])) = [IAct 4%N; IAct 5%N] /\
+  q (fst (send_all (chan_new 2 DropLatest) [IAct 1%N; IAct 2%N; IAct 3%N; IAct 4%N; IAct 5%N])) = [IAct 1%N; IAct 2%N].
+Proof. vm_compute. split; reflexivity. Qed.
+
 (* conservation, in every reachable world and for every policy: the actions that entered the queue
    are, as a multiset, exactly those taken by the reducer, those evicted, and those still queued -
    never both, never neither; and what the reducer took is an in-order subsequence of what entered *)
@@ -47,3 +64,5 @@ Print Assumptions C06_never_parks_blocking.
 Print Assumptions C06_drop_oldest_one.
 Print Assumptions C06_drop_latest_one.
 Print Assumptions C06_conservation.
+Print Assumptions C06_burst_drop_oldest.
+Print Assumptions C06_burst_drop_latest.
